@@ -8,6 +8,13 @@ TB = ("Trusted: Lean 4.33 kernel; axioms propext, Classical.choice, Quot.sound (
 
 # id -> (category, technique, text, note, design_ref)
 CHECKS = {
+    "C20": ("proof", "Lean 4 proofs that mir2c's per-opcode C templates (table regenerated from mir2c/mir2c.c) have the documented meaning under a model of C's conversions, plus termination of the data-section printer + compile-and-run correspondence of emitted C against MIR_interp",
+            "PROVED for all register contents: every integer arithmetic/logic/shift/compare/branch/extension/negation/bt/overflow template of out_insn yields the documented result whenever the emitted C is defined "
+            "(with the exact list of rows where the C is undefined although MIR is defined: signed wrap, a listed finding); the opcode enum of mir.h is covered by the translator's switch; the data-section printer's item loop "
+            "terminates for every item list. Correspondence: one-instruction functions for every row emitted by MIR_module2c, compiled by gcc at -O0/-O2/-O2 -fwrapv -fno-strict-aliasing and run over a boundary grid next to MIR_interp, "
+            "the Lean model of the regenerated row and the documented result; random well-defined programs (results, buffer bytes, external-call log vs MIR_interp); data-section modules (termination, member lists, bytes read back); "
+            "the repository's own modules (translation outcome classes).",
+            TB + " gcc 12 compiles the emitted C. Partial: whole-function translation (declarations, labels, calls, memory operands, alloca), fp and long double rows are compiled and run, not modelled.", "4 C20"),
     "C03": ("proof", "Lean 4 proofs about the thunk codec (BitVec 64) and the link/first-call/generation state machine (public address stable, progress, code published once) + byte-level, history, register-contract and whole-program correspondence across interfaces",
             "PROVED for all addresses and every history of load/link/set-interface/first-call/generation events: redirecting a thunk makes it decode to the new target in both encodings (short/long boundary exact), "
             "a function's public address is its first thunk and never changes, lazy and lazy-bb first calls make progress and publish machine code once, the thunk always targets code of the kind the state machine says. "
